@@ -225,6 +225,23 @@ def check(chk: Check) -> None:
         only_a = sorted(show(x)[:80] for x in ret_absent - ret_present)
         r3_problems.append('a miss returns a different tree with a cache than without one (with: %s; without: %s): the cache is visible '
                            'in what is evaluated' % ('; '.join(only_p) or 'same', '; '.join(only_a) or 'same'))
+    # subscripts that can fail (an index into something computed from the text - for a label, a log line) must not exist on the
+    # cache-present paths only: `source.splitlines()[0]` raises for the empty text, with a cache and not without
+    sub_absent, sub_present = set(), {}
+    for p in paths:
+        none_assumed = [v for c, v, _ in p.assumptions if c == ('cmp', 'is', cache, ('const', None))]
+        absent = bool(none_assumed and none_assumed[0])
+        for e in p.events:
+            if e.kind == 'load_sub' and not om.mentions(freeze(e.obj), cache) and not om.mentions(freeze(e.obj), common.lexer_term(F, selft)) \
+                    and not (isinstance(freeze(e.obj), tuple) and freeze(e.obj)[:1] == ('ref',)):        # (typing generics: MutableMapping[str, Op])
+                if absent:
+                    sub_absent.add(e.text())
+                else:
+                    sub_present.setdefault(e.text(), e.line)
+    for tx, ln in sorted(sub_present.items()):
+        if tx not in sub_absent and any(c == ('cmp', 'is', cache, ('const', None)) for p_ in paths for c, _v, _ in p_.assumptions):
+            r3_problems.append('`%s` (line %d) is evaluated only on paths with a cache: if it fails (an index into an empty sequence) the call '
+                               'raises with a cache and succeeds without one' % (tx, ln))
     if sigs_absent and sigs_present and sigs_absent != sigs_present:
         r3_problems.append('with and without a cache the parser is driven differently (%d preparation sequence(s) occur only %s)' % (
             len(sigs_absent ^ sigs_present), 'with a cache' if sigs_present - sigs_absent else 'without one'))
